@@ -5,8 +5,9 @@ PROPERTY THEOREMS ONLY (model: Hts.Model.CachedReader; contract: Hts.Spec.CacheC
 Scope of the theorems: the sequential reader (`rd = 1`), every file whose members have positive size, every history
 of Seek / Read / ReadByte / Blocked / SetCache(new cache or nil) of any length, every cache that satisfies the
 contract (proved for LRU, Random and StatsRecorder around them in C14; FIFO does not satisfy it).
-The code variant is the one with repair C03-1 (`setBase` drops the previous data: `clearOnRebase = true`), with or
-without repair C03-2 (`peekGuard`).  For the unchanged tree (`Cfg.asIs`) the statements are false:
+The code variant is any one in which a block whose load failed keeps no data (`Cfg.noStale`: repair C03-1
+`clearOnRebase` — `setBase` drops the previous data — or repair C09-2 `failReset` — `decompressor.failAt` — or both, as in
+the current tree `Cfg.repaired`), with or without repair C03-2 (`peekGuard`).  For the unchanged tree (`Cfg.asIs`) the statements are false:
 `stale_block_witness` (LRU) and `fifo_witness`.  Read-ahead (`rd > 1`) is not covered by any theorem here: it is
 checked by the correspondence harness only, and has its own recorded finding.
 -/
@@ -35,7 +36,7 @@ refers to an allocated block that is not the current block, whose base is `k` an
 file offset are those of the member at `k`; block identities in the cache are pairwise distinct; the current
 block, if it claims to hold data, holds the member of its base. -/
 theorem cache_inv (o : CacheOps σ) (wf : σ → Prop) (ct : Contract o wf) (cfg : Cfg)
-    (hcfg : cfg.clearOnRebase = true) (f : File) (hf : FileOK f) (ops : List (Op σ))
+    (hcfg : cfg.noStale) (f : File) (hf : FileOK f) (ops : List (Op σ))
     (ok : ∀ op ∈ ops, OpOK o wf op) (r0 r : Reader σ) (outs : List Out)
     (h0 : newReader o cfg f = .ok (r0, .none)) (hr : run cfg o f r0 ops = .ok (r, outs)) :
     Inv o wf f r := by
@@ -52,7 +53,7 @@ theorem cache_inv (o : CacheOps σ) (wf : σ → Prop) (ct : Contract o wf) (cfg
 the cached reader returns the same bytes, the same error class (nil / io.EOF / other) and the same LastChunk as
 the uncached reader running the same history without the SetCache calls. -/
 theorem cached_refines_uncached (o : CacheOps σ) (wf : σ → Prop) (ct : Contract o wf) (cfg : Cfg)
-    (hcfg : cfg.clearOnRebase = true) (f : File) (hf : FileOK f) (ops : List (Op σ))
+    (hcfg : cfg.noStale) (f : File) (hf : FileOK f) (ops : List (Op σ))
     (ok : ∀ op ∈ ops, OpOK o wf op) (outs : List Out)
     (hr : outputs cfg o f ops = .ok outs) :
     outputs cfg o f (ops.map Op.uncached) = .ok outs := by
@@ -85,7 +86,7 @@ theorem cached_refines_uncached (o : CacheOps σ) (wf : σ → Prop) (ct : Contr
 the same history stops in the same way — or because the recorded choice of Random's victim was rejected,
 which is not a behaviour of the code -/
 theorem cached_faults_only_as_uncached (o : CacheOps σ) (wf : σ → Prop) (ct : Contract o wf) (cfg : Cfg)
-    (hcfg : cfg.clearOnRebase = true) (f : File) (hf : FileOK f) (ops : List (Op σ))
+    (hcfg : cfg.noStale) (f : File) (hf : FileOK f) (ops : List (Op σ))
     (ok : ∀ op ∈ ops, OpOK o wf op) (e : Fault)
     (hr : outputs cfg o f ops = .error e) :
     e = .badHint ∨ outputs cfg o f (ops.map Op.uncached) = .error e := by
@@ -111,6 +112,12 @@ theorem cached_faults_only_as_uncached (o : CacheOps σ) (wf : σ → Prop) (ct 
     · simp only [ne_eq, he, not_false_eq_true, if_true] at hr
       cases hr
 
+/-- the current tree (repairs C03-1, C03-2 and C09-2 applied) is a variant the theorems speak about; so is the
+tree with `failAt` alone -/
+theorem current_tree_noStale : Cfg.repaired.noStale := Or.inl rfl
+
+example : (⟨false, false, true⟩ : Cfg).noStale := Or.inr rfl
+
 /-! ### instances -/
 
 theorem lru_setCache_ok (n : Int) (hn : 1 ≤ n) (hints : List Int) :
@@ -120,13 +127,13 @@ theorem random_setCache_ok (n : Int) (hn : 1 ≤ n) (hints : List Int) :
     OpOK randomOps RCache.WF (.setCache (some (RCache.new n)) hints) := ⟨RCache.wf_new hn, rfl⟩
 
 /-- LRU caches of any capacity ≥ 1, attached at any points of the history, are transparent -/
-theorem lru_transparent (cfg : Cfg) (hcfg : cfg.clearOnRebase = true) (f : File) (hf : FileOK f)
+theorem lru_transparent (cfg : Cfg) (hcfg : cfg.noStale) (f : File) (hf : FileOK f)
     (ops : List (Op LCache)) (ok : ∀ op ∈ ops, OpOK lruOps LCache.WF op) (outs : List Out)
     (hr : outputs cfg lruOps f ops = .ok outs) : outputs cfg lruOps f (ops.map Op.uncached) = .ok outs :=
   cached_refines_uncached lruOps LCache.WF lru_contract cfg hcfg f hf ops ok outs hr
 
 /-- Random caches, for every sequence of victims the code can choose -/
-theorem random_transparent (cfg : Cfg) (hcfg : cfg.clearOnRebase = true) (f : File) (hf : FileOK f)
+theorem random_transparent (cfg : Cfg) (hcfg : cfg.noStale) (f : File) (hf : FileOK f)
     (ops : List (Op RCache)) (ok : ∀ op ∈ ops, OpOK randomOps RCache.WF op) (outs : List Out)
     (hr : outputs cfg randomOps f ops = .ok outs) :
     outputs cfg randomOps f (ops.map Op.uncached) = .ok outs :=
@@ -134,7 +141,7 @@ theorem random_transparent (cfg : Cfg) (hcfg : cfg.clearOnRebase = true) (f : Fi
 
 /-- a StatsRecorder around any conforming cache -/
 theorem recorder_transparent (o : CacheOps σ) (wf : σ → Prop) (ct : Contract o wf) (cfg : Cfg)
-    (hcfg : cfg.clearOnRebase = true) (f : File) (hf : FileOK f) (ops : List (Op (σ × Stats)))
+    (hcfg : cfg.noStale) (f : File) (hf : FileOK f) (ops : List (Op (σ × Stats)))
     (ok : ∀ op ∈ ops, OpOK (recorderOps o) (fun s => wf s.1) op) (outs : List Out)
     (hr : outputs cfg (recorderOps o) f ops = .ok outs) :
     outputs cfg (recorderOps o) f (ops.map Op.uncached) = .ok outs :=
